@@ -241,6 +241,14 @@ class Model:
 # --------------------------------------------------------------------------
 
 
+def evidence_path(pid):
+    """evidence/<id>.json describes a run against /repo; a run against another tree (VERIF_REPO=<scratch worktree>,
+    used to evaluate seeded changes) keeps its record under .work/ so that it never replaces the committed one"""
+    d = os.path.join(VERIF, 'evidence') if os.path.realpath(REPO) == '/repo' else os.path.join(WORK, 'evidence-other-tree')
+    os.makedirs(d, exist_ok=True)
+    return os.path.join(d, pid + '.json')
+
+
 def load_known():
     p = os.path.join(VERIF, 'known_findings.json')
     if not os.path.exists(p):
@@ -355,7 +363,7 @@ class Check:
                                    'trusted_base': TRUSTED_BASE, 'evaluations': 0, 'distinct_nontrivial': 0,
                                    'rule': self.rule, 'samples': [], 'notes': ['check run did not terminate']},
                       'wall_s': limit, 'violations': 1}
-                with open(os.path.join(VERIF, 'evidence', self.pid + '.json'), 'w') as f:
+                with open(evidence_path(self.pid), 'w') as f:
                     json.dump(ev, f, indent=1)
             finally:
                 os._exit(1)
@@ -548,8 +556,7 @@ class Check:
             'wall_s': round(time.time() - t0, 2),
             'violations': n_viol,
         }
-        os.makedirs(os.path.join(VERIF, 'evidence'), exist_ok=True)
-        with open(os.path.join(VERIF, 'evidence', self.pid + '.json'), 'w') as f:
+        with open(evidence_path(self.pid), 'w') as f:
             json.dump(ev, f, indent=1, default=_jsonable)
         log('[%s] tier=%s obligations %d/%d, cases %d, nontrivial %d, disagreements %d, violations %d, %.1fs'
             % (self.pid, self.tier, n_dis, n_obl, n_eval, len(nontriv), len(disagreements), n_viol,
